@@ -10,6 +10,7 @@
 #include <atomic>
 #include <new>
 #include <pthread.h>
+#include <sys/mman.h>
 extern "C" void* __libc_malloc(size_t); extern "C" void __libc_free(void*); extern "C" void* __libc_memalign(size_t, size_t); extern "C" void* __libc_realloc(void*, size_t);
 namespace led {
 static const uint64_t MAGIC = 0x1ed9e7b10c4a11ceULL, DEAD = 0xdeadb10cdeadb10cULL;
@@ -18,6 +19,7 @@ struct Hdr { uint64_t magic; size_t size; size_t align; void* base; Hdr* prev; H
 static std::atomic<long> nalloc(0), nfree(0), live_bytes(0), live_blocks(0), damaged(0), dfree(0);
 static std::atomic<uint64_t> serial(0);
 static std::atomic<int> fill(0xA5);
+static std::atomic<int> guard(0);          // 1: blocks of 1 KiB .. 64 KiB end on an inaccessible page (an access past the end faults, reads included)
 static pthread_mutex_t mu = PTHREAD_MUTEX_INITIALIZER;
 static Hdr head = {0, 0, 0, 0, &head, &head, 0, 0};
 static Hdr* qhead = 0; static Hdr* qtail = 0; static size_t qbytes = 0; static size_t qcap = (size_t)768 << 20;
@@ -25,22 +27,41 @@ static inline size_t hdrspace(size_t align) { size_t h = sizeof(Hdr) + RZ; retur
 static inline unsigned char* front(Hdr* h) { return (unsigned char*)h + sizeof(Hdr); }
 static void* alloc(size_t n, size_t align) {
     size_t hs = hdrspace(align);
+    if (guard.load() && n >= 1024 && n <= (size_t)(1 << 16) && align <= 4096) {
+        size_t nr = (n + align - 1) / align * align, pages = (hs + nr + 4095) / 4096;
+        char* base = (char*)mmap(NULL, (pages + 1) * 4096, PROT_READ | PROT_WRITE, MAP_PRIVATE | MAP_ANONYMOUS, -1, 0);
+        if (base != (char*)MAP_FAILED) {
+            mprotect(base + pages * 4096, 4096, PROT_NONE);
+            char* payload = base + pages * 4096 - nr; Hdr* h = (Hdr*)(payload - RZ - sizeof(Hdr));
+            h->magic = MAGIC; h->size = n; h->align = align; h->base = base; h->serial = serial.fetch_add(1); h->pad = pages;         // pad != 0 marks a guarded block
+            memset(front(h), 0xCA, RZ); memset(payload, fill.load(), n); memset(payload + n, 0xCB, nr - n);
+            pthread_mutex_lock(&mu); h->next = head.next; h->prev = &head; head.next->prev = h; head.next = h; pthread_mutex_unlock(&mu);
+            nalloc++; live_bytes += (long)n; live_blocks++;
+            return payload;
+        }
+    }
     char* base = (char*)(align > 16 ? __libc_memalign(align, hs + n + RZ) : __libc_malloc(hs + n + RZ));
     if (!base) return 0;
     char* payload = base + hs; Hdr* h = (Hdr*)(payload - RZ - sizeof(Hdr));
-    h->magic = MAGIC; h->size = n; h->align = align; h->base = base; h->serial = serial.fetch_add(1);
+    h->magic = MAGIC; h->size = n; h->align = align; h->base = base; h->serial = serial.fetch_add(1); h->pad = 0;
     memset(front(h), 0xCA, RZ); memset(payload + n, 0xCB, RZ); memset(payload, fill.load(), n);
     pthread_mutex_lock(&mu); h->next = head.next; h->prev = &head; head.next->prev = h; head.next = h; pthread_mutex_unlock(&mu);
     nalloc++; live_bytes += (long)n; live_blocks++;
     return payload;
 }
-static long check(Hdr* h) { long d = 0; unsigned char* f = front(h); unsigned char* r = (unsigned char*)h + sizeof(Hdr) + RZ + h->size; for (size_t i = 0; i < RZ; i++) { if (f[i] != 0xCA) d++; if (r[i] != 0xCB) d++; } return d; }
+static long check(Hdr* h) { long d = 0; unsigned char* f = front(h); unsigned char* r = (unsigned char*)h + sizeof(Hdr) + RZ + h->size;
+    size_t rear = h->pad ? ((h->size + h->align - 1) / h->align * h->align - h->size) : RZ;               // a guarded block has only its alignment slack behind it, then the inaccessible page
+    for (size_t i = 0; i < RZ; i++) if (f[i] != 0xCA) d++;
+    for (size_t i = 0; i < rear; i++) if (r[i] != 0xCB) d++;
+    return d; }
 static void release(void* q) {
     if (!q) return;
     Hdr* h = (Hdr*)((char*)q - RZ - sizeof(Hdr));
     if (h->magic == DEAD) { dfree++; return; }                       // double free
     if (h->magic != MAGIC) { __libc_free(q); return; }               // not ours (allocated before interposition was live)
     long d = check(h); if (d) damaged += d;
+    if (h->pad) { pthread_mutex_lock(&mu); h->prev->next = h->next; h->next->prev = h->prev; pthread_mutex_unlock(&mu);
+        nfree++; live_bytes -= (long)h->size; live_blocks--; munmap(h->base, (h->pad + 1) * 4096); return; }            // (a later access faults: the mapping is gone)
     pthread_mutex_lock(&mu); h->prev->next = h->next; h->next->prev = h->prev;
     h->magic = DEAD; memset(q, 0xDD, h->size);                        // poison, then quarantine instead of returning the memory at once
     h->next = 0; if (qtail) qtail->next = h; else qhead = h; qtail = h; qbytes += h->size;
